@@ -14,7 +14,7 @@ use crate::peers::{
 };
 
 use super::{
-    BackObs, CellEnv, CellShared, ClientObs, ConnPlan, Front, Mode, WATCHDOG_END_ONLY, WATCHDOG_NO_PROGRESS, WATCHDOG_SENDER_DONE, Xfer, XferOutcome, host_of, overall_cap,
+    BackObs, CellEnv, CellShared, ClientObs, ConnPlan, Front, Mode, WATCHDOG_NO_PROGRESS, WATCHDOG_SENDER_DONE, Xfer, XferOutcome, host_of, overall_cap,
     pump::{Io, Pump},
     wire::{Verifier, WireGen},
 };
@@ -421,18 +421,6 @@ fn exchange(env: &CellEnv, link: &mut Link, x: &Xfer) -> (ClientObs, bool) {
             obs.stall_silence_s = WATCHDOG_NO_PROGRESS.as_secs();
             break;
         } else if !env.generous
-            && silent > WATCHDOG_END_ONLY
-            && obs.req_sent_complete
-            && back.as_ref().is_some_and(|b| b.resp_sent_complete && b.peer_closed_after_resp)
-        {
-            // the backend has sent everything including its FIN and sozu has closed that
-            // connection: every byte that will ever come is inside sozu, nothing but the
-            // delivery to the client is missing
-            obs.stalled = true;
-            obs.only_end_missing = true;
-            obs.stall_silence_s = WATCHDOG_END_ONLY.as_secs();
-            break;
-        } else if !env.generous
             && silent > WATCHDOG_SENDER_DONE
             && obs.req_sent_complete
             && back.as_ref().is_none_or(|b| b.resp_sent_complete || b.resp_error.is_some() || !b.req.ended || b.req.error.is_some())
@@ -471,6 +459,7 @@ pub fn client_conn(env: &CellEnv, conn: &ConnPlan) -> Vec<XferOutcome> {
     let mut outs: Vec<XferOutcome> = Vec::new();
     let mut link: Option<Link> = None;
     let mut aborted = false;
+    let conn_start = Instant::now();
     for x in &conn.xfers {
         let mut out = XferOutcome {
             conn: conn.idx,
@@ -482,6 +471,10 @@ pub fn client_conn(env: &CellEnv, conn: &ConnPlan) -> Vec<XferOutcome> {
             client: ClientObs::default(),
             back: None,
         };
+        // a connection that keeps running into watchdogs does not hold its cell up for ever
+        if conn_start.elapsed() > env.conn_budget {
+            aborted = true;
+        }
         if aborted {
             outs.push(out);
             continue;
@@ -509,7 +502,6 @@ pub fn client_conn(env: &CellEnv, conn: &ConnPlan) -> Vec<XferOutcome> {
         out.back = if out.client.stalled {
             sh.back_obs(x.key)
         } else if out.client.from_backend && out.client.resp.ended {
-            sh.wait_back(x.key, Duration::from_millis(1000), |b| (b.resp_sent_complete || b.resp_error.is_some()) && (b.req.ended || !b.eager));
             sh.wait_back(x.key, Duration::from_millis(300), |b| b.resp_sent_complete || b.resp_error.is_some())
         } else {
             sh.wait_back(x.key, Duration::from_millis(400), |b| (b.req.ended || b.req.error.is_some()) && (b.resp_sent_complete || b.resp_error.is_some() || !b.resp_started))
